@@ -30,23 +30,13 @@ Theorem C14_b64_unpadded_roundtrip : forall s : str, bytes s ->
 Proof. exact b64_unpadded_roundtrip. Qed.
 Print Assumptions C14_b64_unpadded_roundtrip.
 
-(* KNOWN FINDING b64-newline: the padder counts CR / LF as data, so base64
-   text followed by a newline is rejected *)
-Theorem C14_b64_trailing_newline_refuted : exists s : str,
-  bytes s /\ b64_decode (b64_encode s ++ [10]) <> B64Ok s.
-Proof.
-  exists [97]. split.
-  - repeat constructor.
-  - vm_compute. discriminate.
-Qed.
-Print Assumptions C14_b64_trailing_newline_refuted.
-
-(* fix candidate: padding by the count of non-newline characters accepts the
-   encoding of every byte string with CR / LF inserted anywhere *)
-Theorem C14_b64_fixed_accepts_newlines : forall s t : str, bytes s ->
-  strip_newlines t = b64_encode s -> b64_decode_fixed t = B64Ok s.
-Proof. exact b64_fixed_accepts_newlines. Qed.
-Print Assumptions C14_b64_fixed_accepts_newlines.
+(* base64 text with CR / LF anywhere (written by base64(1), echo, MIME line
+   wrapping), padded or unpadded, decodes to the bytes (repaired in /repo:
+   the padder no longer counts the newline bytes the decoder skips) *)
+Theorem C14_b64_accepts_newlines : forall s t : str, bytes s ->
+  (strip_newlines t = b64_encode s \/ strip_newlines t = strip_pad (b64_encode s)) -> b64_decode t = B64Ok s.
+Proof. exact b64_accepts_newlines. Qed.
+Print Assumptions C14_b64_accepts_newlines.
 
 (* ======================= URI ======================= *)
 
@@ -82,8 +72,9 @@ Proof. exact csv_field_wellformed. Qed.
 Print Assumptions C14_csv_field_wellformed.
 
 (* read (write rows) = rows for every valid separator and all rectangular
-   rows whose fields hold no CR LF pair and that are not a lone empty field:
-   separators, quotes, CR, LF, leading blanks, any bytes inside fields *)
+   rows of at least one field whose fields hold no CR LF pair: separators,
+   quotes, CR, LF, leading blanks, any bytes inside fields, and also a row
+   that is one empty field (repaired in /repo: it is written quoted) *)
 Theorem C14_csv_rows_roundtrip : forall (sep : N) (rows : list (list str)),
   csv_valid_sep sep = true -> Forall csv_row_ok rows -> rectangular rows ->
   csv_read sep (csv_write sep rows) = CsvOk rows.
@@ -101,13 +92,6 @@ Theorem C14_csv_objects_roundtrip : forall (sep : N) (header : list str) (rows :
                csv_decode sep text = CsvOk (List.map (fun row => combine header row) rows).
 Proof. exact csv_objects_roundtrip. Qed.
 Print Assumptions C14_csv_objects_roundtrip.
-
-(* KNOWN FINDING csv-single-empty: a one-column row holding the empty string
-   is written as a blank line and lost *)
-Theorem C14_csv_single_empty_refuted : exists rows : list (list str),
-  rectangular rows /\ csv_read 44 (csv_write 44 rows) <> CsvOk rows.
-Proof. exists [[[97]]; [[]]; [[120]]]. split; [reflexivity|vm_compute; discriminate]. Qed.
-Print Assumptions C14_csv_single_empty_refuted.
 
 (* KNOWN FINDING csv-crlf: CR LF inside a field comes back as LF *)
 Theorem C14_csv_crlf_refuted : exists rows : list (list str),
@@ -172,17 +156,12 @@ Theorem C14_lua_string_literal_roundtrip : forall s rest : str, bytes s ->
 Proof. exact lua_quote_reads_back. Qed.
 Print Assumptions C14_lua_string_literal_roundtrip.
 
-(* a non-empty key written bare is a Lua Name that is not a reserved word *)
+(* a key written bare is a Lua Name that is not a reserved word (the empty
+   key is quoted: repaired in /repo) *)
 Theorem C14_lua_bare_key_sound : forall k : str,
-  k <> [] -> lua_needs_quoting k = false -> lua_is_name k = true.
+  lua_needs_quoting k = false -> lua_is_name k = true.
 Proof. exact lua_bare_key_sound. Qed.
 Print Assumptions C14_lua_bare_key_sound.
-
-(* KNOWN FINDING lua-empty-unquoted-key *)
-Theorem C14_lua_empty_key_refuted : exists k : str,
-  lua_needs_quoting k = false /\ lua_is_name k = false.
-Proof. exists []. split; reflexivity. Qed.
-Print Assumptions C14_lua_empty_key_refuted.
 
 (* ======================= in-expression pairs ======================= *)
 
